@@ -112,6 +112,8 @@ type cwdState struct {
 	at0  map[string]int64 // access time of each entry as observed when the directory was opened
 	// alt: OPEN_DIR that failed may or may not have kept the previous directory
 	altNone bool
+	// entryReads: READ_ENTRY requests answered on this handle (after a fault one of them may have skipped an entry)
+	entryReads int
 }
 
 type roKind int
@@ -745,6 +747,12 @@ func (m *Model) readDir(c *Conn, what string) error {
 			if !m.lenient() {
 				return failf("listing-complete", "%s: entry %q of %s never reported", what, name, m.cwd.dir)
 			}
+			// after a fault: no entries at all is the failure answer; a symbolic link whose resolution failed is left
+			// out like a dangling one (and so is any entry an earlier entry-by-entry read could not stat); but a
+			// listing that names some entries and silently lacks others is wrong data
+			if fi, err := os.Lstat(filepath.Join(m.cwd.dir, name)); count > 0 && m.cwd.entryReads == 0 && err == nil && fi.Mode()&os.ModeSymlink == 0 {
+				return failf("fault-outcome", "%s: after an I/O fault the listing of %s names %d entries as if complete, but lacks %q", what, m.cwd.dir, count, name)
+			}
 			missing = true
 		}
 	}
@@ -776,6 +784,7 @@ func (m *Model) readEntry(c *Conn, v2 bool, what string) error {
 		nameLen, isDir = int(be16(hdr[8:10])), hdr[10]
 	}
 	isEnd := size == -1
+	m.cwd.entryReads++
 	if m.cwd.kind == cwdUnknown {
 		if nameLen > 0 && !isEnd {
 			if _, err := m.readFixed(c, nameLen, what); err != nil {
